@@ -464,10 +464,10 @@ func (m *Model) fail(e *mErr) Resp {
 
 // ContinueAfterFault: a statement that failed with a definite error has been consumed and changed
 // nothing; the dialogue goes on with the statement after it ("after an error the runner remains
-// usable"). Not for option groups (what a choice means after a group that failed to show is not
-// stated anywhere) and not where the outcome of the fault itself is open.
+// usable"). That includes an option group that failed to be shown: no choice is pending after it.
+// Not where the outcome of the fault itself is open.
 func (m *Model) ContinueAfterFault() bool {
-	if !m.faulted || m.discard != "" || m.lastFail.Kind != rError || m.curStmt == nil || m.curStmt.K == sOptions || m.choosing != nil {
+	if !m.faulted || m.discard != "" || m.lastFail.Kind != rError || m.curStmt == nil || m.choosing != nil {
 		return false
 	}
 	m.faulted = false
